@@ -5,8 +5,10 @@
 //   --part lon    longitudes -1800000000..1800000000 at a fixed latitude
 //   --part grid   boundary/stride longitudes x boundary/stride latitudes (rows and columns)
 // quick: windows of consecutive values around every special value + a strided sweep;
-// thorough: additionally every single fixed-point value of the axis (contiguous per shard, the
-// shards overlap by one value so that every pair of consecutive values is compared).
+// thorough: additionally every single fixed-point latitude (1 800 000 001 values, contiguous per
+// shard, the shards overlap by one value so that every pair of consecutive values is compared);
+// for longitudes (x is linear in the longitude) +-10^6 consecutive values around every special
+// value and every 11th value of the axis.
 //
 // For every visited point the real library is driven through its public entry points
 // (lonlat_to_mercator, MercatorProjection::operator(), mercator_to_lonlat, Tile(zoom, Location),
@@ -120,21 +122,17 @@ static long double ref_y(int64_t lat) { return R_REF * asinhl(tanl((static_cast<
 // R*pi by 2.8 mm; both are allowed for here (TOL_M). pos = metres from the west / north edge.
 static const long double TOL_M = 0.0131L;
 static const long double HALF = 20037508.34L;
-struct RefPos {                 // floor(pos -+ TOL_M in units of zoom-30 tiles), unclamped
+struct RefPos {                 // floor((pos -+ TOL_M) / zoom-30 tile extent), clamped into the zoom-30 tile range
     int64_t lo30, hi30;
     explicit RefPos(long double pos) {
         const long double ext30 = 2 * HALF / 1073741824.0L;
-        lo30 = static_cast<int64_t>(floorl((pos - TOL_M) / ext30));
-        hi30 = static_cast<int64_t>(floorl((pos + TOL_M) / ext30));
+        const int64_t last = (int64_t(1) << 30) - 1;
+        lo30 = std::max<int64_t>(0, std::min(last, static_cast<int64_t>(floorl((pos - TOL_M) / ext30))));
+        hi30 = std::max<int64_t>(0, std::min(last, static_cast<int64_t>(floorl((pos + TOL_M) / ext30))));
     }
 };
-static_assert((int64_t(-3) >> 1) == -2, "arithmetic right shift (floor division by a power of two) expected");
-static int64_t floor_div_pow2(int64_t v, int k) { return v >> k; }
-static void ref_tile(int z, const RefPos& r, int64_t& lo, int64_t& hi) {   // floor(x / 2^k) == floor(floor(x) / 2^k)
-    const int64_t n = int64_t(1) << z;
-    lo = std::max<int64_t>(0, std::min(n - 1, floor_div_pow2(r.lo30, 30 - z)));
-    hi = std::max<int64_t>(0, std::min(n - 1, floor_div_pow2(r.hi30, 30 - z)));
-}
+// tile at zoom z = tile at zoom 30 divided by 2^(30-z), rounded down (floor(x / 2^k) == floor(floor(x) / 2^k))
+static void ref_tile(int z, const RefPos& r, int64_t& lo, int64_t& hi) { lo = r.lo30 >> (30 - z); hi = r.hi30 >> (30 - z); }
 
 // ------------------------------------------------------------------------------------------------
 struct Pt {
@@ -225,9 +223,10 @@ class Walker {
         if (!bad) return;
         int z = 31 - __builtin_clz(bad);
         if (m_ax == LAT) {
+            const double q = (og::detail::max_coordinate_epsg3857 - a.m) / og::tile_extent_in_zoom(z);
             V.report("tile/y-decreases-going-south/" + lat_region(a.v) + "/zoom=" + zoom_ranges(bad) + ctor,
                      "at zoom " + std::to_string(z) + " Tile(" + where(b.v) + ").y=" + std::to_string(tb[z]) + " but further south Tile(" + where(a.v) + ").y=" + std::to_string(ta[z]) +
-                     fmt(" (projected y=%.10g; (20037508.34-y)/tile_extent=%.10g is converted to int32_t before clamping)", a.m, (og::detail::max_coordinate_epsg3857 - a.m) / og::tile_extent_in_zoom(z)), spec(a.v, b.v));
+                     fmt(" (projected y=%.10g, (20037508.34-y)/tile_extent=%.10g", a.m, q) + (q >= -2147483649.0 && q < 2147483648.0 ? ")" : " does not fit the int32_t it is converted to before clamping)"), spec(a.v, b.v));
         } else {
             V.report("tile/x-decreases-going-east/" + lon_region(b.v) + "/zoom=" + zoom_ranges(bad) + ctor,
                      "at zoom " + std::to_string(z) + " Tile(" + where(a.v) + ").x=" + std::to_string(ta[z]) + " but further east Tile(" + where(b.v) + ").x=" + std::to_string(tb[z]), spec(a.v, b.v));
@@ -326,7 +325,7 @@ public:
                                                : (p.m + og::detail::max_coordinate_epsg3857) / og::tile_extent_in_zoom(30);
                 if (!(q30 >= 0 && q30 < 1073741824.0)) ++S.clamp_engaged;
                 if (!(q30 > -2147483649.0 && q30 < 2147483648.0)) ++S.cast_out_of_int32;
-                if ((S.evaluations & 0xfff) == 1 || !inside_square || v == 0)
+                if ((S.evaluations & 0xfff) == 1 || v == 0 || v == -LATMAX || v == LATMAX || v == -LONMAX || v == LONMAX)
                     outcome_set.insert(region(m_ax, v) + (p.t[30] == 0 ? ":first-tile@z30" : p.t[30] == (1u << 30) - 1 ? ":last-tile@z30" : ":interior-tile@z30"));
             }
         };
@@ -411,9 +410,18 @@ static void part_axis(const Args& a, Axis ax) {
     const int64_t stride = ax == LAT ? 37 : 97;
     if (ok) ok = sweep(a, ax, -M, M, stride, other, &smp);
     benum::bound(std::string(name) + ": every " + std::to_string(stride) + "th fixed-point value of the whole axis x zoom 0..30", ok);
-    if (a.thorough) {
+    if (a.thorough && ax == LAT) {
         if (ok) ok = sweep(a, ax, -M, M, 1, other, nullptr);
         benum::bound(std::string(name) + ": every fixed-point value of the whole axis (" + std::to_string(2 * M + 1) + " values, consecutive pairs) x zoom 0..30", ok);
+    }
+    if (a.thorough && ax == LON) {   // x is linear in the longitude: a dense grid + long consecutive runs at the special values
+        for (int64_t c : special(ax)) {
+            if (!ok) break;
+            ok = sweep(a, ax, std::max(-M, c - 1000000), std::min(M, c + 1000000), 1, other, nullptr);
+        }
+        benum::bound(std::string(name) + ": every fixed-point value within +-1000000 steps of -180, -90, 0, 90, 180 degrees x zoom 0..30", ok);
+        if (ok) ok = sweep(a, ax, -M, M, 11, other, nullptr);
+        benum::bound(std::string(name) + ": every 11th fixed-point value of the whole axis x zoom 0..30", ok);
     }
 }
 
